@@ -86,6 +86,7 @@ type gent struct {
 	random  string
 	size    int64 // file size
 	atime   int64
+	mtime   int64 // set independently of atime: the loader must order by ACCESS time only
 	data    []byte
 	rel     string // where it is created
 	final   string // where it is after migration
@@ -107,6 +108,8 @@ func atimeOf(fi os.FileInfo) int64 {
 	st := fi.Sys().(*syscall.Stat_t)
 	return int64(st.Atim.Sec)
 }
+
+func mtimeOf(fi os.FileInfo) int64 { return fi.ModTime().Unix() }
 
 func cfile(name string, size, at int64, cid int) string {
 	return fmt.Sprintf("(mkFile %s %s %s %d)", CS(name), CZ(size), CZ(at), cid)
@@ -174,7 +177,10 @@ func citem(i disk.VerifItem) string {
 	return fmt.Sprintf("(mkItem %s %s %s %s)", CZ(i.Size), CZ(i.SizeOnDisk), CS(i.Random), CB(i.Legacy))
 }
 
-func writeFile(dir, rel string, data []byte, at int64) error {
+// writeFile creates the file and then sets access and modification time (in that order: nothing
+// touches the file again before the cache loads it — with relatime a read of a file whose atime is
+// not later than its mtime would bump the atime, and such files are generated on purpose)
+func writeFile(dir, rel string, data []byte, at, mt int64) error {
 	p := filepath.Join(dir, rel)
 	if err := os.MkdirAll(filepath.Dir(p), 0755); err != nil {
 		return err
@@ -182,8 +188,7 @@ func writeFile(dir, rel string, data []byte, at int64) error {
 	if err := os.WriteFile(p, data, 0644); err != nil {
 		return err
 	}
-	t := time.Unix(at, 0)
-	return os.Chtimes(p, t, t.Add(-time.Hour))
+	return os.Chtimes(p, time.Unix(at, 0), time.Unix(mt, 0))
 }
 
 // wait until the eviction queue is empty and the directory agrees with the index (or 3 s passed)
@@ -211,13 +216,13 @@ func repro(what string) {
 	case "repro-panic": // an unexpected file that sorts after the <kind>.v2 directories
 		for i := 0; i < 256; i++ {
 			for j := 0; j < 20; j++ {
-				_ = writeFile(dir, fmt.Sprintf("ac.v2/%02x/%02x%s-r%d", i, i, h[2:], j), []byte("x"), 1500000000)
+				_ = writeFile(dir, fmt.Sprintf("ac.v2/%02x/%02x%s-r%d", i, i, h[2:], j), []byte("x"), 1500000000, 1500000000)
 			}
 		}
-		_ = writeFile(dir, "zzz", []byte("x"), 1500000000)
+		_ = writeFile(dir, "zzz", []byte("x"), 1500000000, 1500000000)
 	case "repro-hang": // unrecognised names in more leaf directories than scanDir has workers
 		for i := 0; i < 64; i++ {
-			_ = writeFile(dir, fmt.Sprintf("ac.v2/%02x/.DS_Store", i), []byte("x"), 1500000000)
+			_ = writeFile(dir, fmt.Sprintf("ac.v2/%02x/.DS_Store", i), []byte("x"), 1500000000, 1500000000)
 		}
 	}
 	done := make(chan error, 1)
@@ -361,9 +366,99 @@ func oneCase(r *Rng, rep *Report, c int, dir string, fsChecked *bool) (string, s
 		ents = append(ents, e)
 		rep.Count(fmt.Sprintf("gen.layout%d.%s", e.layout, e.kind.String()))
 	}
+	// ---- modification times: independent of the access times.  The loader must rebuild the recency
+	// order from the ACCESS times alone, so the two orders are made to differ in most populations.
+	tieCase := defect == 0 && len(ents) >= 3 && r.Chance(10)
+	if tieCase { // equal access times with different modification times (only with max_size >= total:
+		// sort.Sort is not stable and the scan order is not deterministic, so ties may come in any order)
+		// (never two files of one key: which of them is indexed last would be arbitrary too)
+		a := r.Intn(len(ents))
+		tied := 0
+		for _, o := range ents {
+			if o != ents[a] && o.key() != ents[a].key() && tied < 2 && r.Chance(50) {
+				dup := false
+				for _, q := range ents {
+					if q != o && q.key() == o.key() {
+						dup = true
+					}
+				}
+				if !dup {
+					o.atime = ents[a].atime
+					tied++
+				}
+			}
+		}
+		if tied == 0 {
+			tieCase = false
+		}
+	}
+	if tieCase {
+		rep.Count("gen.atime-ties")
+	}
+	mtimeMode := r.Intn(6)
+	if tieCase {
+		mtimeMode = []int{2, 5}[r.Intn(2)]
+	}
+	{
+		lo, hi := int64(1<<62), int64(0)
+		var oldest, newest *gent
+		for _, e := range ents {
+			if e.atime < lo {
+				lo, oldest = e.atime, e
+			}
+			if e.atime >= hi {
+				hi, newest = e.atime, e
+			}
+		}
+		future := time.Now().Unix() + 86400
+		for i, e := range ents {
+			switch mtimeMode {
+			case 0: // written before it was last read
+				e.mtime = e.atime - 3600
+			case 1: // never read since it was written
+				e.mtime = e.atime
+			case 2: // unrelated
+				e.mtime = 1500000000 + int64(r.Intn(1400))*1000 + int64(r.Intn(900))
+			case 3: // exactly the opposite order
+				e.mtime = hi + (hi - e.atime) + 1
+			case 4: // oldest access but newest modification, newest access but oldest modification
+				e.mtime = e.atime - 3600
+				if e == oldest {
+					e.mtime = hi + 5000
+				}
+				if e == newest {
+					e.mtime = lo - 5000
+				}
+			case 5: // modification times in the future for some, unrelated for the others
+				if r.Chance(50) {
+					e.mtime = future + int64(len(ents)-i)*10
+				} else {
+					e.mtime = 1500000000 + int64(r.Intn(1400))*1000
+				}
+			}
+		}
+		differs := false
+		ts := func(e *gent) int64 {
+			if e.mtime > e.atime {
+				return e.mtime
+			}
+			return e.atime
+		}
+		for _, x := range ents {
+			for _, y := range ents {
+				if x.atime < y.atime && ts(x) > ts(y) {
+					differs = true
+				}
+			}
+		}
+		rep.Count(fmt.Sprintf("gen.mtime-mode%d", mtimeMode))
+		if differs {
+			rep.Count("gen.mtime-order-differs-from-atime-order")
+		}
+	}
 	cids := map[string]int{}
 	for _, e := range ents {
-		if err := writeFile(dir, e.rel, e.data, e.atime); err != nil {
+		if err := writeFile(dir, e.rel, e.data, e.atime, e.mtime); err != nil {
 			panic(err)
 		}
 		cids[e.rel] = e.cid
@@ -408,7 +503,8 @@ func oneCase(r *Rng, rep *Report, c int, dir string, fsChecked *bool) (string, s
 	defectText := ""
 	someHash := randHash(r)
 	put := func(rel string, size int) {
-		_ = writeFile(dir, rel, r.Bytes(size), 1400000000+int64(r.Intn(100000)))
+		at := 1400000000 + int64(r.Intn(100000))
+		_ = writeFile(dir, rel, r.Bytes(size), at, at+int64(r.Intn(200000))-100000)
 		cids[rel] = 99
 	}
 	switch defect {
@@ -488,8 +584,8 @@ func oneCase(r *Rng, rep *Report, c int, dir string, fsChecked *bool) (string, s
 	// ---- check once that the file system keeps the access times we set
 	for _, e := range ents {
 		fi, err := os.Stat(filepath.Join(dir, e.rel))
-		if err != nil || atimeOf(fi) != e.atime {
-			panic(fmt.Sprintf("file system did not keep the access time of %s", e.rel))
+		if err != nil || atimeOf(fi) != e.atime || mtimeOf(fi) != e.mtime {
+			panic(fmt.Sprintf("file system did not keep the access / modification time of %s", e.rel))
 		}
 	}
 	*fsChecked = true
@@ -533,6 +629,9 @@ func oneCase(r *Rng, rep *Report, c int, dir string, fsChecked *bool) (string, s
 			max = 1
 		}
 	}
+	if tieCase && max < total {
+		max = total
+	}
 	switch {
 	case max > total:
 		rep.Count("max.larger")
@@ -552,7 +651,7 @@ func oneCase(r *Rng, rep *Report, c int, dir string, fsChecked *bool) (string, s
 	var text []string
 	text = append(text, fmt.Sprintf("max=%d hard=%d mode=%s total=%d", max, hard, mode, total))
 	for _, e := range ents {
-		text = append(text, fmt.Sprintf("%s size=%d atime=%d", e.rel, e.size, e.atime))
+		text = append(text, fmt.Sprintf("%s size=%d atime=%d mtime=%d", e.rel, e.size, e.atime, e.mtime))
 	}
 	for _, x := range extra {
 		text = append(text, x+"/")
